@@ -21,12 +21,12 @@ def run(ctx):
     ctx.run_shards(b, ["--mode", "parse", "--len", str(p["parse_len"])], label="xml parse")
     handles.run_xml(ctx)
     c = ctx.counters
-    ev = sum(c.get(k, 0) for k in ("parse_inputs", "deep_inputs", "roundtrip_trees", "comment_documents", "size_documents", "byte_documents")) + c.get("transitions", 0)
+    ev = sum(c.get(k, 0) for k in ("parse_inputs", "deep_inputs", "roundtrip_trees", "comment_documents", "size_documents", "byte_documents", "prefix_inputs")) + c.get("transitions", 0)
     cov = {"evaluations": int(ev), "distinct_nontrivial": int(c.get("distinct_nontrivial", 0)),
            "rule": "parse: every string of <= %d tokens over a 27-token alphabet (< > / = \" ' ? ! - & ; # a b SP LF CR 1 x <!-- --> <? ?> </ /> &amp; &#65;) "
                    "through both entry points, exactly sized heap copy under ASan, time and memory watchdog, error line/column against the line structure; "
                    "nesting 1..1000; round trip: element trees with <= 3 elements, <= 2 attributes, values of <= %d tokens over {a \" ' & < > LF CR SP e-acute "
-                   "&#65; &amp;}, non-blank non-adjacent text of <= %d tokens over {a SP / = \" & < LF}; bytes: every 7-bit character XML allows, alone / between letters / doubled, as attribute value and as text; sizes: attribute values and texts a^{0,1} c^n z^{0,1,3} for every "
+                   "&#65; &amp;}, non-blank non-adjacent text of <= %d tokens over {a SP / = \" & < LF}; every byte prefix of every serialised tree and of every document with a multi-line comment (truncation inside delimiters, entities, quoted values); bytes: every 7-bit character XML allows, alone / between letters / doubled, as attribute value and as text; sizes: attribute values and texts a^{0,1} c^n z^{0,1,3} for every "
                    "escaped character c and n = 0..%d (every reallocation point of the escaper); comments: every tree serialised by the harness with "
                    "one of three comment forms at every token boundary (white-space separated inside tags) and processing instructions with a line break "
                    "before the root; plus the Xml::Variant handle histories (copy, assignment, toElement() on shared values)"
